@@ -40,7 +40,7 @@ Failing(clauses) == {c[1] : c \in {d \in clauses : ~d[2]}}
 Evicted(P, Q, e) == ((P.entries \ e.rejected) \cup Range(e.paths)) \ Q.entries
 
 (* e = [keys, result, paths, contacted, failed, rejected, clean]                       *)
-(*   keys      requested keys, in order, no duplicates                                 *)
+(*   keys      requested keys, in order (a key may be listed more than once)           *)
 (*   result    "ok" | "raised"                                                        *)
 (*   paths     keys of the returned paths, in order (<<>> if raised)                   *)
 (*   contacted keys for which the remote resource was contacted during the call        *)
